@@ -20,7 +20,10 @@ every check (`LenaModel/Gen/C20Facts.lean`).  What is modelled:
   module does not have is `AttributeError` (on a lena module); any other object is *opaque*;
 * a **call** of a function executes *every* load of its body (all paths at once), after the
   imports that precede it in the body; regions whose execution is not certain (`if`, loops,
-  handlers) are bracketed by `enter`/`leave` and leave no trace.
+  handlers) are bracketed by `enter`/`leave` and leave no trace.  (At module level the
+  translator adds, after such a statement, a `bind` for the names it may have bound — see the
+  docstring of the translator: *assumed* bindings.)  A local bound only by import statements
+  has an identifier of its own, distinct from the global of the same spelling.
 
 Identifiers are interned by the translator: `Name` and `ModId` are natural numbers; names below
 `Facts.nBuiltins` are `dir(builtins)`.  The interpreter state (all module `__dict__`s and
@@ -92,7 +95,7 @@ structure Facts where
   nBuiltins : Nat
   /-- names starting with an underscore (not taken by `import *` without `__all__`) -/
   priv : List Name
-  /-- every name is `< nNames` (row length of the slot array) -/
+  /-- every name that is ever bound is `< nNames` (row length of the slot array) -/
   nNames : Nat
   /-- width of a slot in bits: `2 ^ slotBits ≥ mods.length + 2` -/
   slotBits : Nat
@@ -223,7 +226,9 @@ def isPriv (F : Facts) (n : Name) : Bool := F.priv.any (fun k => Nat.beq k n)
 /-- bound on the nesting depth of imports (a module being executed is never executed again) -/
 def depth (F : Facts) : Nat := F.mods.length + 2
 
-/-- the layout constants fit the facts (checked once by `resolvesAll`) -/
+/-- the layout constants fit the facts (checked once by `resolvesAll`): the slot is wide enough
+for every module, and every name that is ever *bound* has a column (a name that is only read may
+lie outside the row: it is never bound, and `State.get` says so) -/
 def layoutOk (F : Facts) : Bool :=
   Nat.ble (F.mods.length + 2) (2 ^ F.slotBits) &&
   F.mods.all (fun M =>
@@ -231,8 +236,7 @@ def layoutOk (F : Facts) : Bool :=
     (M.all.getD []).all (fun n => Nat.blt n F.nNames) &&
     let evOk : Ev → Bool := fun e =>
       match e with
-      | .bind n | .unbind n | .load n | .bindMod n _ => Nat.blt n F.nNames
-      | .attr r ch => Nat.blt r F.nNames && ch.all (fun a => Nat.blt a F.nNames)
+      | .bind n | .unbind n | .bindMod n _ => Nat.blt n F.nNames
       | .fromName _ n a => Nat.blt n F.nNames && Nat.blt a F.nNames
       | _ => true
     M.evs.all evOk && M.funcs.all (fun f => f.evs.all evOk))
@@ -421,25 +425,46 @@ def isOk {ε α} : Except ε α → Bool
 /-- is `σ` one of `seen`? -/
 def seenIn (seen : List State) (σ : State) : Bool := seen.any (fun s => decide (s = σ))
 
-/-- call every function of `fs` in `σ`: `none` if one fails, else the states reached that are
-not in `acc` yet, appended to `acc` -/
-def callAll (F : Facts) (σ : State) : List (ModId × Func) → List State → Option (List State)
-  | [], acc => some acc
+/-- a call that fails: the state it was made in, the function, the failure -/
+structure Failure where
+  state : State
+  mod : ModId
+  func : Func
+  err : Err
+  deriving Repr
+
+/-- call every function of `fs` in `σ`: the first failing call, or else the states reached that
+are not in `acc` yet, appended to `acc` -/
+def callAll (F : Facts) (σ : State) : List (ModId × Func) → List State → Except Failure (List State)
+  | [], acc => .ok acc
   | (m, f) :: r, acc =>
     match callFn F m f σ with
-    | .error _ => none
+    | .error e => .error ⟨σ, m, f, e⟩
     | .ok σ' => σ'.force (fun s => callAll F σ r (if seenIn acc s then acc else acc ++ [s]))
 
+/-- the outcome of the exploration -/
+inductive Explored where
+  /-- the set of states is closed under calls, and no call fails -/
+  | closed (seen : List State)
+  /-- a call fails in a reachable state -/
+  | failed (w : Failure)
+  /-- more states than the bound allows -/
+  | bound
+  deriving Repr
+
 /-- breadth-first closure of a set of states under calls: `work` are the states still to be
-looked at, `seen` all states met so far (`work ⊆ seen`); `none` if a call fails or the bound
-`k` on the number of states is hit -/
-def explore (F : Facts) : Nat → List State → List State → Option (List State)
-  | _, [], seen => some seen
-  | 0, _ :: _, _ => none
+looked at, `seen` all states met so far (`work ⊆ seen`) -/
+def explore (F : Facts) : Nat → List State → List State → Explored
+  | _, [], seen => .closed seen
+  | 0, _ :: _, _ => .bound
   | k + 1, σ :: work, seen =>
     match callAll F σ (callables F σ) seen with
-    | none => none
-    | some seen' => explore F k (work ++ seen'.drop seen.length) seen'
+    | .error w => .failed w
+    | .ok seen' => explore F k (work ++ seen'.drop seen.length) seen'
+
+def Explored.isClosed : Explored → Bool
+  | .closed _ => true
+  | _ => false
 
 def exploreBound : Nat := 64
 
@@ -462,7 +487,7 @@ def exportedB (F : Facts) (e : ModId) (σ : State) : Bool :=
 def resolvesEntry (F : Facts) (e : ModId) : Bool :=
   match importEntry F e with
   | .error _ => false
-  | .ok σ => σ.force (fun s => exportedB F e s && (explore F exploreBound [s] [s]).isSome)
+  | .ok σ => σ.force (fun s => exportedB F e s && (explore F exploreBound [s] [s]).isClosed)
 
 /-- **the check**: for every entry point, the import and the star import succeed, the advertised
 names exist, and in every state reachable afterwards every callable function resolves -/
